@@ -96,6 +96,28 @@ Theorem C11_at_most_once : forall ls s m g g', run true init ls = Some s -> g < 
   (forall h, h < ngen s -> holds (sp (gens s h)) <> Some m).
 Proof. exact ClientConnProofs.at_most_once. Qed.
 
+(* --- endpoint down: a failed dial leaves the client closed, so the next call dials again ------------------ *)
+(* [LReconnectFail] is a label like any other: all theorems above quantify over runs with failed dials interleaved *)
+Theorem C11_failed_dial_leaves_closed : forall s s', step true s LReconnectFail = Some s' -> s' = s /\ closedF s' = true.
+Proof. exact ClientConnProofs.failed_dial_leaves_closed. Qed.
+
+Theorem C11_call_after_failed_dial : forall ls s s1 m s2, run true init ls = Some s -> step true s LReconnectFail = Some s1 ->
+  run true s1 [LReconnect; LEnq m] = Some s2 ->
+  cur s2 = Some (ngen s) /\ closedF s2 = false /\
+  exists s', reach_int s2 s' /\ cur s' = Some (ngen s) /\ dead (gens s' (ngen s)) = false /\ In m (got (gens s' (ngen s))).
+Proof. exact ClientConnProofs.call_after_failed_dial. Qed.
+
+(* the seeded variant C11-m3 (closed flag cleared before the dial) violates it *)
+Theorem C11_failed_dial_m3_refuted : exists s0 s2, run true init sched_down = Some s0 /\ closedF s0 = true /\
+  run true (dial_fail_m3 s0) [LReconnect; LLogEnq 1; LEnq 1] = Some s2 /\
+  closedF s2 = false /\ cur s2 = None /\ ngen s2 = 1 /\ sendQ s2 = [1] /\
+  sp (gens s2 0) = SExit /\ rp (gens s2 0) = RExit /\ got (gens s2 0) = [].
+Proof. exact ClientConnProofs.m3_refuted. Qed.
+Theorem C11_failed_dial_example : exists s0 s1 s2, run true init sched_down = Some s0 /\ step true s0 LReconnectFail = Some s1 /\
+  run true s1 [LReconnect; LLogEnq 1; LEnq 1; LSTop 1; LSPoll 1; LSBlkQueue 1; LSCheck 1; LSHook 1; LSWriteOk 1] = Some s2 /\
+  cur s2 = Some 1 /\ got (gens s2 1) = [1] /\ c11_accepts (log s2) = true.
+Proof. exact ClientConnProofs.failed_dial_example. Qed.
+
 (* --- close notification (reconnect push): AdapterProxy.onPush swaps in a fresh transport client and grace-closes
    the old one (model Conc/Adapter.v: a sequence of independent clients; [proj i als] = label sequence of client i) - *)
 (* every transport client inside an adapter run is a run of the client model: all theorems above hold per client *)
@@ -165,6 +187,10 @@ Print Assumptions C11_delivery_inevitable.
 Print Assumptions C11_call_after_known_close.
 Print Assumptions C11_delivery_example.
 Print Assumptions C11_at_most_once.
+Print Assumptions C11_failed_dial_leaves_closed.
+Print Assumptions C11_call_after_failed_dial.
+Print Assumptions C11_failed_dial_m3_refuted.
+Print Assumptions C11_failed_dial_example.
 Print Assumptions C11_push_client_is_client_run.
 Print Assumptions C11_push_never_closes_new.
 Print Assumptions C11_push_grace_hits_replaced_only.
